@@ -43,6 +43,12 @@ var solvers = []solverSpec{
 	{"cvc5-1.0", func(file string, t int) []string {
 		return []string{"cvc5", fmt.Sprintf("--tlimit=%d", t*1000), file}
 	}},
+	{"z3-5.1.0/arith2", func(file string, t int) []string {
+		return []string{"z3-new", fmt.Sprintf("-T:%d", t), "smt.arith.solver=2", file}
+	}},
+	{"z3-5.1.0/relevancy1", func(file string, t int) []string {
+		return []string{"z3-new", fmt.Sprintf("-T:%d", t), "smt.relevancy=1", file}
+	}},
 }
 
 func runSolver(sp solverSpec, file string, timeoutSec int) (string, string, float64) {
@@ -210,7 +216,7 @@ func solveAll(prelude string, encs []*FnEnc, dir string, timeoutSec, workers int
 				b.WriteString(full[:j.ob.Pos])
 				fmt.Fprintf(&b, "\n; obligation %s\n(assert %s)\n", j.ob.Name, j.ob.At)
 				tmo := timeoutSec
-				order := []int{1, 0}
+				order := []int{1, 0, 3, 4}
 				if j.ob.Cover {
 					b.WriteString("(check-sat)\n")
 					tmo = 2
@@ -249,7 +255,7 @@ func solveAll(prelude string, encs []*FnEnc, dir string, timeoutSec, workers int
 							if tmo < lt {
 								lt = tmo
 							}
-							r = discharge(headLite+fmt.Sprintf("(assert (not %s))\n(check-sat)\n", part), strings.TrimSuffix(pf, ".smt2")+".lite.smt2", lt, false, []int{1, 0})
+							r = discharge(headLite+fmt.Sprintf("(assert (not %s))\n(check-sat)\n", part), strings.TrimSuffix(pf, ".smt2")+".lite.smt2", lt, false, []int{1, 0, 3})
 							if r.Status != "unsat" {
 								r = nil
 							}
